@@ -177,3 +177,98 @@ Section Ops.
   Lemma ncb_op_api : List.length (ns_cbs (op_api a s)) = List.length (ns_cbs s). Proof. reflexivity. Qed.
   Lemma ncb_op_dict : List.length (ns_cbs (op_dict u p s)) = List.length (ns_cbs s). Proof. reflexivity. Qed.
 End Ops.
+
+Section Ops2.
+  Variables (p t : nat) (c : cb) (a : api) (u : ident) (s : NS).
+  Lemma pl_op_place : ns_places (op_place s) = ns_places s ++ [Some 0]. Proof. reflexivity. Qed.
+  Lemma ap_op_place : ns_apis (op_place s) = ns_apis s. Proof. reflexivity. Qed.
+  Lemma di_op_place : ns_place_dict (op_place s) = ns_place_dict s. Proof. reflexivity. Qed.
+  Lemma fr_op_place : ns_fresh (op_place s) = ns_fresh s. Proof. reflexivity. Qed.
+  Lemma re_op_place : rest_of (op_place s) = rest_of s. Proof. reflexivity. Qed.
+  Lemma pl_op_trans : ns_places (op_trans s) = ns_places s. Proof. reflexivity. Qed.
+  Lemma ap_op_trans : ns_apis (op_trans s) = ns_apis s. Proof. reflexivity. Qed.
+  Lemma di_op_trans : ns_place_dict (op_trans s) = ns_place_dict s. Proof. reflexivity. Qed.
+  Lemma fr_op_trans : ns_fresh (op_trans s) = ns_fresh s. Proof. reflexivity. Qed.
+  Lemma re_op_trans : rest_of (op_trans s) = rest_of s. Proof. reflexivity. Qed.
+  Lemma pl_op_in : ns_places (op_in p t s) = ns_places s. Proof. reflexivity. Qed.
+  Lemma ap_op_in : ns_apis (op_in p t s) = ns_apis s. Proof. reflexivity. Qed.
+  Lemma di_op_in : ns_place_dict (op_in p t s) = ns_place_dict s. Proof. reflexivity. Qed.
+  Lemma fr_op_in : ns_fresh (op_in p t s) = ns_fresh s. Proof. reflexivity. Qed.
+  Lemma re_op_in : rest_of (op_in p t s) = rest_of s. Proof. reflexivity. Qed.
+  Lemma pl_op_out : ns_places (op_out p t s) = ns_places s. Proof. reflexivity. Qed.
+  Lemma ap_op_out : ns_apis (op_out p t s) = ns_apis s. Proof. reflexivity. Qed.
+  Lemma di_op_out : ns_place_dict (op_out p t s) = ns_place_dict s. Proof. reflexivity. Qed.
+  Lemma fr_op_out : ns_fresh (op_out p t s) = ns_fresh s. Proof. reflexivity. Qed.
+  Lemma re_op_out : rest_of (op_out p t s) = rest_of s. Proof. reflexivity. Qed.
+  Lemma pl_op_cb : ns_places (op_cb t c s) = ns_places s. Proof. reflexivity. Qed.
+  Lemma ap_op_cb : ns_apis (op_cb t c s) = ns_apis s. Proof. reflexivity. Qed.
+  Lemma di_op_cb : ns_place_dict (op_cb t c s) = ns_place_dict s. Proof. reflexivity. Qed.
+  Lemma fr_op_cb : ns_fresh (op_cb t c s) = ns_fresh s. Proof. reflexivity. Qed.
+  Lemma re_op_cb : rest_of (op_cb t c s) = rest_of s. Proof. reflexivity. Qed.
+  Lemma pl_op_api : ns_places (op_api a s) = ns_places s. Proof. reflexivity. Qed.
+  Lemma ap_op_api : ns_apis (op_api a s) = ns_apis s ++ [a]. Proof. reflexivity. Qed.
+  Lemma di_op_api : ns_place_dict (op_api a s) = ns_place_dict s. Proof. reflexivity. Qed.
+  Lemma fr_op_api : ns_fresh (op_api a s) = S (ns_fresh s). Proof. reflexivity. Qed.
+  Lemma re_op_api : rest_of (op_api a s) = rest_of s. Proof. reflexivity. Qed.
+  Lemma pl_op_dict : ns_places (op_dict u p s) = ns_places s. Proof. reflexivity. Qed.
+  Lemma ap_op_dict : ns_apis (op_dict u p s) = ns_apis s. Proof. reflexivity. Qed.
+  Lemma di_op_dict : ns_place_dict (op_dict u p s) = (u, p) :: ns_place_dict s. Proof. reflexivity. Qed.
+  Lemma fr_op_dict : ns_fresh (op_dict u p s) = ns_fresh s. Proof. reflexivity. Qed.
+  Lemma re_op_dict : rest_of (op_dict u p s) = rest_of s. Proof. reflexivity. Qed.
+End Ops2.
+
+#[export] Hint Rewrite pre_op_place post_op_place cbs_op_place ntr_op_place ncb_op_place pl_op_place ap_op_place di_op_place fr_op_place re_op_place pre_op_trans post_op_trans cbs_op_trans ntr_op_trans ncb_op_trans pl_op_trans ap_op_trans di_op_trans fr_op_trans re_op_trans pre_op_in post_op_in cbs_op_in ntr_op_in ncb_op_in pl_op_in ap_op_in di_op_in fr_op_in re_op_in pre_op_out post_op_out cbs_op_out ntr_op_out ncb_op_out pl_op_out ap_op_out di_op_out fr_op_out re_op_out pre_op_cb post_op_cb cbs_op_cb ntr_op_cb ncb_op_cb pl_op_cb ap_op_cb di_op_cb fr_op_cb re_op_cb pre_op_api post_op_api cbs_op_api ntr_op_api ncb_op_api pl_op_api ap_op_api di_op_api fr_op_api re_op_api pre_op_dict post_op_dict cbs_op_dict ntr_op_dict ncb_op_dict pl_op_dict ap_op_dict di_op_dict fr_op_dict re_op_dict : netops.
+
+(* ---- generate_service as a composition of the operations ---- *)
+Definition svc_ops (n : name) (ins : list param) (at_ : site) (ctx t1 t2 : nat) (s : NS) : NS :=
+  let a := List.length (ns_apis s) in
+  let s1 := op_api (svc_api n at_ ins ctx (ns_fresh s)) s in
+  let started := List.length (ns_places s1) in
+  let s2 := op_place s1 in
+  let finished := List.length (ns_places s2) in
+  let s3 := op_place s2 in
+  let s4 := op_dict (IUuid (ns_fresh s)) finished s3 in
+  let done := List.length (ns_places s4) in
+  let s5 := op_place s4 in
+  let dt := List.length (ns_trans s5) in
+  let s6 := op_trans s5 in
+  op_in done t2 (op_out started t1 (op_out done dt (op_in finished dt (op_in started dt
+    (op_cb dt (CbSF a) (op_cb t1 (CbSS a) s6)))))).
+
+Lemma generate_service_eq : forall n ins at_ ctx t1 t2 s,
+    generate_service n ins at_ ctx t1 t2 false s
+    = Ok ([List.length (ns_trans s)], svc_ops n ins at_ ctx t1 t2 s).
+Proof. reflexivity. Qed.
+
+Lemma pg_call_eq : forall ctx t at_ ins body t1 t2 s,
+    pg_stmt ctx (XCall t at_ ins body) t1 t2 s =
+    match pg_block (List.length (ns_apis s)) body t1 t2
+                   (op_cb t1 (CbTS (List.length (ns_apis s))) (op_api (call_api t at_ ins ctx (ns_fresh s)) s)) with
+    | Ok (ex, s2) =>
+      match nfor ex (fun e => add_callback e (CbTF (List.length (ns_apis s)))) s2 with
+      | Ok (_, s3) => Ok (ex, s3)
+      | Fuel => Fuel | Exn k => Exn k | Unsupported => Unsupported
+      end
+    | Fuel => Fuel | Exn k => Exn k | Unsupported => Unsupported
+    end.
+Proof.
+  intros. cbn [pg_stmt]. unfold nbind at 1. unfold fresh_uuid at 1. unfold nbind at 1. unfold new_api at 1.
+  unfold nbind at 1. unfold add_callback at 1, nmod at 1. unfold nbind at 1. unfold pg_block.
+  match goal with |- match ?X with _ => _ end = match ?Y with _ => _ end => change X with Y; destruct Y as [[ex s2]| | |] end;
+    try reflexivity.
+  unfold nbind, nret. destruct (nfor ex _ s2) as [[[] s3]| | |]; reflexivity.
+Qed.
+
+Lemma pg_par_eq : forall ctx bs t1 t2 s,
+    pg_stmt ctx (XParallel bs) t1 t2 s =
+    match pg_calls pg_stmt ctx t1 (List.length (ns_trans s)) bs (op_place (op_trans s)) with
+    | Ok (_, s2) => Ok ([List.length (ns_trans s)],
+                        op_in (List.length (ns_places s)) t2 (op_out (List.length (ns_places s)) (List.length (ns_trans s)) s2))
+    | Fuel => Fuel | Exn k => Exn k | Unsupported => Unsupported
+    end.
+Proof.
+  intros. cbn [pg_stmt]. unfold nbind at 1. rewrite create_transition_eq. unfold nbind at 1.
+  unfold create_place at 1. unfold nbind at 1.
+  match goal with |- match ?X with _ => _ end = match ?Y with _ => _ end => change X with Y; destruct Y as [[[] s2]| | |] end;
+    reflexivity.
+Qed.
